@@ -51,6 +51,16 @@ func (e *HTTPErrorExpr) Validate() *eval.ValidationErrors {
 	case *RootExpr:
 		ee = Root.Error(e.Name)
 	}
+	if ee == nil {
+		return verr
+	}
+
+	// validate body attribute
+	if b := e.Response.Body; b != nil {
+		if o, ok := b.Meta["origin:attribute"]; ok && ee.Find(o[0]) == nil {
+			verr.Add(e.Response, "body %q has no equivalent attribute in error type", o[0])
+		}
+	}
 
 	// validate headers
 	if e.Response.Headers != nil && !e.Response.Headers.IsEmpty() {
